@@ -3,4 +3,4 @@
 cd "$(dirname "$0")"
 ./bootstrap.sh >&2 || exit 3
 export PYTHONHASHSEED=0
-exec .venv/bin/python -m engine.main "$@"
+exec /verif/.venv/bin/python -m engine.main "$@"
